@@ -72,15 +72,12 @@ func c12Check(cs vshCase, d *vshDesc) []vshFinding { //nolint:gocognit,cyclop
 
 			continue
 		case len(at) > 1:
-			others := []string{}
-			for _, i := range at {
-				others = append(others, secs[i].Media)
-			}
-			sort.Strings(others)
 			cl := "media-only"
-			for _, o := range others {
-				if o == "application" {
-					cl = "with-application"
+			for k, i := range at {
+				if secs[i].Media == "application" && k == 0 {
+					cl = "application-section-first"
+				} else if secs[i].Media == "application" {
+					cl = "application-section-later"
 				}
 			}
 			add("transceiver-mid-on-several-sections|"+cl, fmt.Sprintf("mid %q of transceiver %d (%s) is carried by %d m-sections %v", t.Mid, ti, t.Kind, len(at), at))
@@ -139,7 +136,7 @@ func c12Check(cs vshCase, d *vshDesc) []vshFinding { //nolint:gocognit,cyclop
 		}
 		want := map[uint32]string{}
 		wantGroups := map[string]string{}
-		for ei, e := range t.Enc {
+		for _, e := range t.Enc {
 			want[e.SSRC] = "primary"
 			if e.RTX != 0 {
 				want[e.RTX] = "rtx"
@@ -149,7 +146,6 @@ func c12Check(cs vshCase, d *vshDesc) []vshFinding { //nolint:gocognit,cyclop
 				want[e.FEC] = "fec"
 				wantGroups[fmt.Sprintf("FEC-FR %d %d", e.SSRC, e.FEC)] = "FEC-FR"
 			}
-			_ = ei
 		}
 		for ei, e := range t.Enc {
 			encPos := "first"
